@@ -67,8 +67,8 @@ Section Sound.
     unfold race_free in Hrf. apply andb_true_iff in Hrf. destruct Hrf as [_ Hpairs].
     rewrite forallb_forall in Hpairs. specialize (Hpairs r1 Hin1).
     rewrite forallb_forall in Hpairs. specialize (Hpairs r2 Hin2).
-    unfold pair_ok in Hpairs. rewrite Hconf in Hpairs. simpl in Hpairs.
-    apply orb_true_iff in Hpairs. destruct Hpairs as [Hcl | Hexm].
+    unfold pair_ok in Hpairs. rewrite Hconf in Hpairs.
+    destruct (common_lock r1 r2) eqn:Hcl.
     - unfold common_lock in Hcl. apply existsb_exists in Hcl. destruct Hcl as ([l1 m1] & Hi1 & Hcl).
       apply existsb_exists in Hcl. destruct Hcl as ([l2 m2] & Hi2 & Hcl). simpl in Hcl.
       apply andb_true_iff in Hcl. destruct Hcl as [Heq Hmw]. apply lockc_eqb_eq in Heq. subst l2.
@@ -77,9 +77,11 @@ Section Sound.
       apply orb_true_iff in Hmw. destruct Hmw as [Hmw | Hmw].
       + destruct m1; simpl in Hmw; try discriminate. specialize (Hm1 eq_refl). discriminate.
       + destruct m2; simpl in Hmw; try discriminate. specialize (Hm2 eq_refl). discriminate.
-    - unfold exempt in Hexm. repeat (apply andb_true_iff in Hexm; destruct Hexm as [Hexm ?]).
-      apply Hne. rewrite (Hk1 ltac:(assumption) ltac:(assumption)).
-      rewrite (Hk2 ltac:(assumption) ltac:(assumption)). reflexivity.
+    - unfold exempt in Hpairs.
+      destruct (group_scoped (r_class r1)); [|discriminate].
+      destruct (r_own r1) eqn:O1; [|discriminate]. destruct (r_own r2) eqn:O2; [|discriminate].
+      destruct (keyed (r_handler r1)) eqn:K1; [|discriminate].
+      apply Hne. rewrite (Hk1 eq_refl eq_refl). rewrite (Hk2 eq_refl Hpairs). reflexivity.
   Qed.
 End Sound.
 
